@@ -119,3 +119,64 @@ V('C09', 'neg-reorder-kwargs', D, CS + 'commit_tx',
   '''            user_schema=latest_state.user_schema,
             global_schema=latest_state.global_schema,''', '''            global_schema=latest_state.global_schema,
             user_schema=latest_state.user_schema,''', None)
+
+V('C09', 'sync-tx-restores-at-current-id', 'edb/server/compiler/dbstate.py', 'edb.server.compiler.dbstate.CompilerConnectionState.sync_tx',
+  '''        if self._current_tx.id == txid:
+            return
+
+        if self.can_sync_to_savepoint(txid):
+            self.sync_to_savepoint(txid)
+            return
+''', '''        if self.can_sync_to_savepoint(txid):
+            self.sync_to_savepoint(txid)
+            return
+
+        if self._current_tx.id == txid:
+            return
+''', 'C09.R9', 'sync_tx:current-id-is-a-no-op')
+V('C09', 'failed-tx-release-compiles', 'edb/server/compiler/compiler.py', 'edb.server.compiler.compiler._compile_ql_transaction',
+  '''    if ctx.expect_rollback and not isinstance(
+        ql, (qlast.RollbackTransaction, qlast.RollbackToSavepoint)
+    ):''', '''    if ctx.expect_rollback and isinstance(
+        ql, (qlast.StartTransaction, qlast.CommitTransaction, qlast.DeclareSavepoint)
+    ):''', 'C09.R9', 'failed-tx:ReleaseSavepoint')
+V('C09', 'commit-unit-global-under-user-schema', 'edb/server/compiler/compiler.py', 'edb.server.compiler.compiler._make_query_unit',
+  '''        if not ctx.dump_restore_mode:
+            if comp.user_schema is not None:
+                final_user_schema = comp.user_schema
+                unit.user_schema = pickle.dumps(comp.user_schema, -1)
+                unit.user_schema_version = (
+                    _get_schema_version(comp.user_schema)
+                )
+                unit.extensions, unit.ext_config_settings = (
+                    _extract_extensions(ctx, comp.user_schema)
+                )
+            unit.feature_used_metrics = comp.feature_used_metrics
+            if comp.cached_reflection is not None:
+                unit.cached_reflection = \\
+                    pickle.dumps(comp.cached_reflection, -1)
+            if comp.global_schema is not None:
+                unit.global_schema = pickle.dumps(comp.global_schema, -1)
+                unit.roles = _extract_roles(comp.global_schema)
+
+        if comp.modaliases is not None:''', '''        if not ctx.dump_restore_mode and comp.user_schema is not None:
+            final_user_schema = comp.user_schema
+            unit.user_schema = pickle.dumps(comp.user_schema, -1)
+            unit.user_schema_version = (
+                _get_schema_version(comp.user_schema)
+            )
+            unit.extensions, unit.ext_config_settings = (
+                _extract_extensions(ctx, comp.user_schema)
+            )
+            unit.feature_used_metrics = comp.feature_used_metrics
+            if comp.cached_reflection is not None:
+                unit.cached_reflection = \\
+                    pickle.dumps(comp.cached_reflection, -1)
+            if comp.global_schema is not None:
+                unit.global_schema = pickle.dumps(comp.global_schema, -1)
+                unit.roles = _extract_roles(comp.global_schema)
+
+        if comp.modaliases is not None:''', 'C09.R9', 'TxControlQuery:global_schema', count=1)
+# negative control: the failed-transaction guard with the tuple reordered
+V('C09', 'neg-failed-tx-tuple-reordered', 'edb/server/compiler/compiler.py', 'edb.server.compiler.compiler._compile_ql_transaction',
+  '(qlast.RollbackTransaction, qlast.RollbackToSavepoint)', '(qlast.RollbackToSavepoint, qlast.RollbackTransaction)', None)
